@@ -149,6 +149,9 @@ pub struct Call {
     /// None = shipped (1024); Some(0) = unbounded; Some(n) = n entries
     pub memo_capacity: Option<usize>,
     pub flag_aware: bool,
+    /// diagnostic knob (C17 discriminator): the keyword set in force is frozen to the default
+    #[serde(default)]
+    pub freeze_version: bool,
     pub faults: Vec<Fault>,
 }
 
@@ -168,6 +171,7 @@ impl Call {
             strip_comments: false,
             memo_capacity: None,
             flag_aware: false,
+            freeze_version: false,
             faults: vec![],
         }
     }
